@@ -482,6 +482,14 @@ func (c *CFG) EdgeDisj(b *cfg.Block, succ int) [][]Fact {
 					ok = false
 					return
 				}
+			case *ast.Ident:
+				// a bool local that names a disjunction/conjunction stands for it
+				if d := PureBoolDef(x); d != nil {
+					if bd, isB := Unparen(d).(*ast.BinaryExpr); isB && (bd.Op == token.LAND || bd.Op == token.LOR) {
+						fl(d, truth)
+						return
+					}
+				}
 			}
 			out = append(out, Fact{C: c, B: b, Succ: succ, Expr: e, Truth: truth})
 		}
@@ -507,6 +515,12 @@ func (c *CFG) EdgeDisj(b *cfg.Block, succ int) [][]Fact {
 					groups = append(groups, g)
 				}
 				return
+			}
+		case *ast.Ident:
+			if d := PureBoolDef(x); d != nil {
+				if bd, isB := Unparen(d).(*ast.BinaryExpr); isB && (bd.Op == token.LAND || bd.Op == token.LOR) {
+					rec(d, truth)
+				}
 			}
 		}
 	}
@@ -939,6 +953,70 @@ func (c *CFG) CallLocs(pats ...string) (direct []Loc, deferred []Loc) {
 		return true
 	})
 	return
+}
+
+// CallLocsThrough is the direct part of CallLocs plus the calls of closures held in
+// single-assignment locals whose body runs one of pats on every path to its exits (a local
+// closure folding duplicated code stands for the calls it always makes).
+func (c *CFG) CallLocsThrough(pats ...string) []Loc {
+	out, _ := c.CallLocs(pats...)
+	info := c.F.Info()
+	always := map[*Func]bool{}
+	var runsAlways func(g *Func, depth int) bool
+	runsAlways = func(g *Func, depth int) bool {
+		if v, ok := always[g]; ok {
+			return v
+		}
+		always[g] = false
+		if depth > 2 {
+			return false
+		}
+		gc := g.CFG()
+		via := gc.callLocsThrough(runsAlways, depth+1, pats...)
+		ok, _ := gc.MustPass(gc.Entry(), LocSet(gc.Exits(false)...), LocSet(via...))
+		always[g] = ok && len(via) > 0
+		return always[g]
+	}
+	c.F.Walk(func(n ast.Node) bool {
+		call, ok := n.(*ast.CallExpr)
+		if !ok {
+			return true
+		}
+		if _, isIdent := Unparen(call.Fun).(*ast.Ident); !isIdent {
+			return true
+		}
+		if d, isDefer := c.F.P.parents[call].(*ast.DeferStmt); isDefer && d.Call == call {
+			return true
+		}
+		if g := c.F.P.closureOfLocal(c.F, call.Fun); g != nil && runsAlways(g, 0) {
+			if l := c.LocOf(call); l.Valid() {
+				out = append(out, l)
+			}
+		}
+		return true
+	})
+	_ = info
+	return out
+}
+
+func (c *CFG) callLocsThrough(runsAlways func(*Func, int) bool, depth int, pats ...string) []Loc {
+	out, _ := c.CallLocs(pats...)
+	c.F.Walk(func(n ast.Node) bool {
+		call, ok := n.(*ast.CallExpr)
+		if !ok {
+			return true
+		}
+		if _, isIdent := Unparen(call.Fun).(*ast.Ident); !isIdent {
+			return true
+		}
+		if g := c.F.P.closureOfLocal(c.F, call.Fun); g != nil && g != c.F && runsAlways(g, depth) {
+			if l := c.LocOf(call); l.Valid() {
+				out = append(out, l)
+			}
+		}
+		return true
+	})
+	return out
 }
 
 // MustPass reports whether every path from 'from' to a location accepted by 'to' executes a
